@@ -356,6 +356,13 @@ pub fn run_scheduled(src: &str, sched: &Sched, validate: bool, max_steps: u64) -
         let after = snap(&mut rt);
         if let (Some(b), Some(a)) = (&before, &after) {
             check_snap(a, "after a VM instruction", &mut ro);
+            if let Some(t) = rt.iter_threads_mut().next() {
+                let (hs, _) = verif_gc::heap_bytes(t);
+                let rc = verif_gc::heap_recount(t);
+                if hs != rc && ro.cycle_spec.len() < 3 {
+                    ro.cycle_spec.push(format!("heap accounting drift after VM step {}: heap_size (which paces the collector) is {hs} but the heap list holds {rc} bytes", ro.vm_steps));
+                }
+            }
             if let Some(l) = live_or_new.as_mut() {
                 let pb = parse_snap(b);
                 let old: HashSet<usize> = pb.heap.iter().map(|h| h.0).collect();
